@@ -282,6 +282,23 @@ func Generate(rng *rand.Rand, i int, thorough bool) *p2prig.Scenario {
 		s.Announce = []p2prig.AnnounceSpec{{Blocks: 1 + rng.Intn(2), Mode: []string{"inv", "headers", "conformant"}[rng.Intn(3)]}}
 		return s
 	}
+	// an old chain (every block three days old, so the service never calls itself current and follows the inv announcements of
+	// its sync peer only): two peers with the same chain announce every new block, in either order
+	if s.Engine == "legacy" && i%32 == 21 {
+		s.HonestLen = 40 + rng.Intn(150)
+		s.CheckpointHeights = []int32{int32(1 + rng.Intn(s.HonestLen-20))}
+		s.DisableCheckpoints = rng.Intn(4) == 0
+		s.InitialStore, s.PrefixLen = "genesis", 0
+		s.Nodes = []p2prig.NodeSpec{{Kind: "honest"}, {Kind: "laggard", Lag: 0, MaxLive: 2}}
+		s.DropNode0AfterSync, s.WaitReconnect, s.SlowConvergeWaitSec = false, false, 0
+		s.AgeHours = 72
+		first, second := []int{1, 0}, []int{0, 1}
+		if (i/32)%2 == 1 {
+			first, second = second, first
+		}
+		s.Announce = []p2prig.AnnounceSpec{{Blocks: 1, Mode: "inv", Nodes: first}, {Blocks: 1, Mode: "inv", Nodes: second}}
+		return s
+	}
 	// the only peer is lost during or right after the handshake - before it has sent its version message, after its
 	// version and before its verack, or as soon as the handshake is complete; the service dials it again, and what the
 	// peer offers has to be fetched over the second connection before anything is announced
@@ -499,6 +516,9 @@ func Classify(s *p2prig.Scenario) string {
 	}
 	if s.IdleSec > 0 {
 		cp += ",idle-period"
+	}
+	if s.AgeHours > 0 {
+		cp += ",old-chain"
 	}
 	return strings.Join([]string{s.Engine, cp, s.InitialStore, lenClass, strings.Join(kinds, "+"), strings.Join(ann, ",")}, "|")
 }
